@@ -275,8 +275,9 @@ func (r *framesRule) OnInstr(e *Engine, st *State, fc *FrameCtx, in ssa.Instruct
 			}
 			if s.X == 'y' && len(cc.Args) == 3 {
 				// error argument: non-nil exactly on the recovered branch
-				r.checkCompleteErr(e, st, fc, in, cc.Args[2], s)
-				if s.K == 'y' && s.Es != 'y' {
+				if r.checkCompleteErr(e, st, fc, in, cc.Args[2], s) {
+					// decided on the value itself (a phi of nil and the recovered error)
+				} else if s.K == 'y' && s.Es != 'y' {
 					e.Report(st, in.Pos(), "dispatch-fn/obs/complete-error", "a panic was recovered on this path but the error handed to OnHandlerComplete was not assigned on it (e.g. the panic value fell through a type switch without a default): the panicking invocation is reported as successful")
 				}
 			}
@@ -348,6 +349,12 @@ func (r *framesRule) OnInstr(e *Engine, st *State, fc *FrameCtx, in ssa.Instruct
 
 func (r *framesRule) isPublishCtx(c string) bool {
 	for _, x := range r.ctxCanons {
+		if strings.HasPrefix(x, "v:") {
+			if c == x {
+				return true
+			}
+			continue
+		}
 		if strings.HasPrefix(c, x) {
 			return true
 		}
@@ -422,22 +429,47 @@ func (r *framesRule) checkPanicHandlerArgs(e *Engine, st *State, fc *FrameCtx, i
 // and non-nil on the recovered exit. Decided through the recorded recover outcome: the
 // argument is a load of a cell that is only assigned (a never-nil error) on the
 // recovered branch.
-func (r *framesRule) checkCompleteErr(e *Engine, st *State, fc *FrameCtx, in ssa.Instruction, arg ssa.Value, s frameSigma) {
+func (r *framesRule) checkCompleteErr(e *Engine, st *State, fc *FrameCtx, in ssa.Instruction, arg ssa.Value, s frameSigma) (byValue bool) {
+	// the error variable is local to the deferred closure: a phi that is nil on the edges
+	// that bypass the recovered branch and a fresh non-nil error on the edges from it
+	if ph, isPhi := stripConv(arg).(*ssa.Phi); isPhi {
+		okShape := true
+		nonNil := 0
+		for i, ed := range ph.Edges {
+			if k, isK := ed.(*ssa.Const); isK && k.Value == nil {
+				// this edge must not come from the recovered branch
+				if i < len(ph.Block().Preds) && blockDominatedByRecoverNonNil(ph.Block().Preds[i]) {
+					okShape = false
+				}
+				continue
+			}
+			def, isIn := ed.(ssa.Instruction)
+			if !e.neverNil(nil, ed, 0) || !isIn || !dominatedByRecoverNonNil(def) {
+				okShape = false
+				continue
+			}
+			nonNil++
+		}
+		if !okShape || nonNil == 0 {
+			e.Report(st, in.Pos(), "dispatch-fn/obs/complete-error", "the error handed to OnHandlerComplete is not nil exactly on the paths that bypass the recovered-panic branch and a fresh error on the paths through it")
+		}
+		return true
+	}
 	ld, ok := stripConv(arg).(*ssa.UnOp)
 	if !ok || ld.Op != token.MUL {
 		if k, ok := arg.(*ssa.Const); ok && k.Value == nil {
 			if s.K == 'y' {
 				e.Report(st, in.Pos(), "dispatch-fn/obs/complete-error", "OnHandlerComplete is given a nil error although the handler panicked")
 			}
-			return
+			return false
 		}
 		e.Report(st, in.Pos(), "dispatch-fn/obs/complete-error", "cannot decide what error OnHandlerComplete receives (unrecognised shape)")
-		return
+		return false
 	}
 	a := e.allocOf(ld.X)
 	if a == nil {
 		e.Report(st, in.Pos(), "dispatch-fn/obs/complete-error", "cannot decide what error OnHandlerComplete receives (not a local cell)")
-		return
+		return false
 	}
 	// a deferred call's arguments are evaluated when the defer statement runs: the load of
 	// the error cell must not precede the assignment made on the recovered branch
@@ -448,7 +480,7 @@ func (r *framesRule) checkCompleteErr(e *Engine, st *State, fc *FrameCtx, in ssa
 			}
 			if sto.Parent() != d.Parent() || !reaches(sto, d) {
 				e.Report(st, in.Pos(), "dispatch-fn/obs/complete-error", "OnHandlerComplete is deferred with the error variable as an argument: the argument is evaluated when the defer statement runs, before the recovered panic is recorded, so a panicking invocation is reported with a nil error")
-				return
+				return false
 			}
 		}
 	}
@@ -459,7 +491,7 @@ func (r *framesRule) checkCompleteErr(e *Engine, st *State, fc *FrameCtx, in ssa
 				continue
 			}
 			e.Report(st, sto.Pos(), "dispatch-fn/obs/complete-error", "the error reported to OnHandlerComplete can be assigned a value that is not a fresh non-nil error")
-			return
+			return false
 		}
 		if !dominatedByRecoverNonNil(sto) {
 			e.Report(st, sto.Pos(), "dispatch-fn/obs/complete-error", "the error reported to OnHandlerComplete is assigned outside the recovered-panic branch: a normal completion would be reported as failed")
@@ -468,6 +500,15 @@ func (r *framesRule) checkCompleteErr(e *Engine, st *State, fc *FrameCtx, in ssa
 	if s.K == 'y' && len(e.cells.storeIns[a]) == 0 {
 		e.Report(st, in.Pos(), "dispatch-fn/obs/complete-error", "OnHandlerComplete is given an error that is never set although the handler panicked")
 	}
+	return false
+}
+
+// blockDominatedByRecoverNonNil: like dominatedByRecoverNonNil for a block.
+func blockDominatedByRecoverNonNil(b *ssa.BasicBlock) bool {
+	if len(b.Instrs) == 0 {
+		return false
+	}
+	return dominatedByRecoverNonNil(b.Instrs[0])
 }
 
 // dominatedByRecoverNonNil: the instruction sits in a block dominated by the true
@@ -624,7 +665,7 @@ func runFrames(c *Ctx, p *Prog, R *BusRoles, want map[string]string) {
 	fnm := fnName(R.PublishFn)
 	r.eventCanon = "param:" + fnm + "." + R.PublishFn.Params[2].Name()
 	cn := R.PublishFn.Params[1].Name()
-	r.ctxCanons = []string{"param:" + fnm + "." + cn, "cell:" + fnm + "." + cn + "@"}
+	r.ctxCanons = append([]string{"param:" + fnm + "." + cn, "cell:" + fnm + "." + cn + "@"}, publishCtxPhiCanons(R.PublishFn)...)
 	r.loops = loopsOf(R.PublishFn)
 	r.header = dispatchLoopHeader(R)
 	if r.header == nil {
